@@ -307,3 +307,81 @@ func c03BlockedWrites(x *X) {
 func init() {
 	register(&Scenario{Prop: "C03", Name: "c03/blocked-writes", Quick: []Bound{{0, 0}, {1, 0}}, Thorough: []Bound{{2, 0}}, Body: c03BlockedWrites, BudgetQ: 15})
 }
+
+// the peer has stopped reading (requests written since then sit in the client's buffered writer) and then
+// shuts down its sending direction only (FIN: the client's reader sees EOF while its own output still
+// makes no progress).  Every outstanding call, ping and blocked stream read fails with ErrShutdown
+// right away - they do not wait for output that may never drain - and a call started afterwards
+// fails at once.  (Closing a buffered writer flushes it: the environment's Close waits for the socket.)
+func c03HalfClose(x *X) {
+	mode := basicModes[x.Choose(5)]
+	nlate := 1 + x.Choose(2)
+	withStream := x.Choose(2) == 1
+	f := newFixture(mode.so, mode.co)
+	long := newUcall(1, fGate, 20, formCall)
+	long.spawn(f.conn)
+	var st rpc.Stream
+	rdDone := false
+	var rdErr error
+	if withStream {
+		var err error
+		st, err = f.conn.NewStream("StreamSvc.Push")
+		if err != nil {
+			x.Fail("C03/setup-call-failed", "NewStream: %v", err)
+			return
+		}
+		vs.GoNamed("stream-reader", func() {
+			var b []byte
+			rdErr = st.ReadMessage(nil, &b)
+			rdDone = true
+		})
+	}
+	vs.Quiesce()
+	f.cl.p.stall[0] = true // from now on the peer reads nothing
+	var calls []*ucall
+	for i := 0; i < nlate; i++ {
+		c := newUcall(byte(2+i), 0, 20+i, []int{formCall, formGo, formCallCtx}[i%3])
+		calls = append(calls, c)
+		c.spawn(f.conn)
+	}
+	pingDone := false
+	var pingErr error
+	vs.GoNamed("pinger", func() { pingErr = f.conn.Ping(); pingDone = true })
+	vs.Quiesce()
+	f.cl.p.halfShut[1] = true // FIN from the peer
+	vs.Quiesce()
+	for _, c := range append([]*ucall{long}, calls...) {
+		if !c.ret {
+			x.Fail("C03/caller-hangs/half-close", "call %d (%s) never returned after the peer ended the connection (its FIN arrived while %d requests were still in the client's write buffer; mode %s)", c.tag, formNames[c.form], len(f.cl.p.held[0]), mode.name)
+		} else if c.err != rpc.ErrShutdown {
+			x.Fail("C03/unexpected-error/half-close", "call %d returned %v, want ErrShutdown", c.tag, c.err)
+		}
+	}
+	if !pingDone {
+		x.Fail("C03/caller-hangs/half-close", "a Ping never returned after the peer ended the connection (mode %s)", mode.name)
+	} else if pingErr != rpc.ErrShutdown {
+		x.Fail("C03/unexpected-error/half-close", "Ping returned %v, want ErrShutdown", pingErr)
+	}
+	if withStream && !rdDone {
+		x.Fail("C03/stream-reader-hangs/half-close", "a ReadMessage blocked on a stream is still blocked after the peer ended the connection")
+	} else if withStream && rdErr == nil {
+		x.Fail("C03/stream-reader-error", "the blocked stream ReadMessage returned nil without a message")
+	}
+	late := newUcall(9, 0, 20, formCall)
+	late.spawn(f.conn)
+	vs.Quiesce()
+	if !late.ret {
+		x.Fail("C03/late-call-hangs/half-close", "a call started after the peer ended the connection blocks")
+	} else if late.err != rpc.ErrShutdown {
+		x.Fail("C03/late-call-error/half-close", "a call started after the peer ended the connection returned %v, want ErrShutdown", late.err)
+	}
+	x.Outcome("%s nlate=%d stream=%v held=%d", mode.name, nlate, withStream, len(f.cl.p.held[0]))
+	f.cl.Unstall()
+	f.w.open(1)
+	f.conn.Close()
+	vs.Quiesce()
+}
+
+func init() {
+	register(&Scenario{Prop: "C03", Name: "c03/peer-half-close-buffered-output", Quick: []Bound{{0, 0}, {1, 0}}, Thorough: []Bound{{2, 0}}, Body: c03HalfClose, BudgetQ: 20})
+}
